@@ -16,6 +16,7 @@ import (
 	"verif/vs/c13"
 	"verif/vs/c17"
 	"verif/vs/run"
+	"verif/vs/selftest"
 )
 
 var checks = map[string]*run.Check{
@@ -35,6 +36,18 @@ func main() {
 	if len(os.Args) < 2 {
 		fmt.Fprintln(os.Stderr, "usage: vschk <property> [--tier quick|thorough] [--replay file]")
 		os.Exit(2)
+	}
+	if os.Args[1] == "SELFTEST" {
+		rep, failed := selftest.Run()
+		for _, l := range rep {
+			fmt.Println(l)
+		}
+		if failed > 0 {
+			fmt.Println("SELFTEST FAILED:", failed)
+			os.Exit(2)
+		}
+		fmt.Println("SELFTEST OK")
+		return
 	}
 	c, ok := checks[os.Args[1]]
 	if !ok {
